@@ -188,15 +188,19 @@ Exit(h, left, files) ==
     /\ UNCHANGED <<cfg, mouseOn, showCursor, pending>>
 ExitVia(h) == Exit(h, {}, {}) /\ UNCHANGED dev
 
-(* Deviation (known finding): a preview command still running at exit is neither killed nor are its temp files      *)
-(* removed (killPreview is a non-blocking send after EvtQuit; the process exits first).                             *)
-ExitLeavingPreview(h) == /\ "preview" \in children /\ dev' = dev \cup {"PreviewLeft"}
-                         /\ \E left \in SUBSET {"preview"} : Exit(h, left, {"preview"})     \* (the kill sometimes wins; the files stay)
-(* Deviation (finding): the reload command running at exit is killed, but the temp files of its placeholders stay    *)
-(* (removeFiles runs in the reader goroutine after the kill; the process exits first).                              *)
-ExitLeavingReloadTemps(h) == /\ \E t \in temps : t.owner = "reload" /\ "reload" \in children
-                             /\ \/ Exit(h, {}, {"reload"}) /\ dev' = dev \cup {"ReloadTempsLeft"}
-                                \/ "preview" \in children /\ Exit(h, {"preview"}, {"reload"}) /\ dev' = dev \cup {"PreviewLeft", "ReloadTempsLeft"}
+(* Deviations (known findings), kept apart from the design and flagged in `dev`:                                    *)
+(*  PreviewLeft      a preview command still running at exit is not killed (killPreview is a non-blocking send      *)
+(*                   after EvtQuit; the process exits first) - or the kill wins but the files of its placeholders   *)
+(*                   stay (they are removed by the previewer goroutine only after the command has been waited for)  *)
+(*  ReloadTempsLeft  the reload command running at exit is killed, but the files of its placeholders stay           *)
+(*                   (removeFiles runs in the reader goroutine after the kill; the process exits first)             *)
+ExitDev(h, left, files) ==
+    /\ left \subseteq {"preview"} /\ files \subseteq {"preview", "reload"} /\ left \subseteq files /\ files # {}
+    /\ files \subseteq children
+    /\ Exit(h, left, files)
+    /\ dev' = dev \cup (IF "preview" \in files THEN {"PreviewLeft"} ELSE {}) \cup (IF "reload" \in files THEN {"ReloadTempsLeft"} ELSE {})
+ExitLeavingPreview(h) == \E left \in SUBSET {"preview"} : ExitDev(h, left, {"preview"})
+ExitLeavingReloadTemps(h) == \E left \in SUBSET {"preview"}, files \in {{"reload"}, {"reload", "preview"}} : ExitDev(h, left, files)
 
 TempCounts == 0..2
 Design == \/ RInit \/ Flush \/ ToggleCursor \/ BgPause \/ Suspend \/ Continue
